@@ -416,6 +416,9 @@ def _state_table(ctx, repo, st):
         if isinstance(n, ast.Call) and call_name(n) == "isinstance" and len(n.args) == 2:
             mapped.add(ast.unparse(n.args[1]))
     classes = set(keys.values())
+    if any(isinstance(n, ast.For) for n in walk_no_nested(gc)):
+        # a (class, name) table walked with isinstance: every class named in the function is mapped
+        mapped |= {n.id for n in walk_no_nested(gc) if isinstance(n, ast.Name) and n.id in classes}
     ctx.decide(classes <= mapped, "R-TABLE/states", f"{sm.qual}.get_current_state", sm.where(gc),
                "get_current_state maps every state class", f"get_current_state does not map {sorted(classes - mapped)}", key="reverse_map")
     want = {"Closed": "CLOSED", "WaitConnAck": "WAIT_CONN_ACK", "WaitInitiatorCEA": "WAIT_I_CEA", "Open": "OPEN", "Closing": "CLOSING"}
